@@ -273,8 +273,8 @@ public:
       if(newSize >= 0)
          thesize = newSize;
 
-      if(newMax < newSize)
-         newMax = newSize;
+      if(newMax < thesize)
+         newMax = thesize;
 
       if(newMax < 1)
          newMax = 1;
